@@ -650,10 +650,13 @@ func main() {
 			c.Oracle() // pairs with different streams: the property holds on them
 		}
 		// smallest pairs first: lib keeps the first three failing inputs per class
-		weight := func(p pr) int {
-			return 1000*(pool[p.a].t.size()+pool[p.b].t.size()) + len(pool[p.a].t.key()) + len(pool[p.b].t.key())
+		w1 := make([]int, len(pool))
+		for i, it := range pool {
+			w1[i] = 1000*it.t.size() + len(it.t.key())
 		}
-		sort.SliceStable(colliding, func(i, j int) bool { return weight(colliding[i]) < weight(colliding[j]) })
+		sort.SliceStable(colliding, func(i, j int) bool {
+			return w1[colliding[i].a]+w1[colliding[i].b] < w1[colliding[j].a]+w1[colliding[j].b]
+		})
 		classes := make([]string, len(colliding))
 		classTotal := map[string]int{}
 		for i, p := range colliding {
@@ -670,7 +673,11 @@ func main() {
 		for i, p := range colliding {
 			a, b, cls := pool[p.a].t, pool[p.b].t, classes[i]
 			c.Oracle()
-			c.Fail(cls, fmt.Sprintf("distinct trees, equal hash input %q", pool[p.a].stream), pairJS(a, b))
+			if seenOfClass[cls] < 3 {
+				c.Fail(cls, fmt.Sprintf("distinct trees, equal hash input %q", pool[p.a].stream), pairJS(a, b))
+			} else {
+				c.Fail(cls, "", nil) // counted; lib keeps the first three (the smallest) per class
+			}
 			c.Hist("collision_class", cls)
 			stride := max(1, classTotal[cls]/capCases)
 			if k := seenOfClass[cls]; cls != clsUnknown && k%stride == 0 && k/stride < capCases {
